@@ -190,4 +190,10 @@ VARIANTS = [
     ("C13", "reamber/quaver/lists/notes/QuaHoldList.py", "        df = self.df.copy()\n        df[\"EndTime\"]", "        df = self.df.astype(dict(offset=int, length=int))\n        df[\"EndTime\"]", B, "C13.D"),
     ("C09", "reamber/quaver/lists/notes/QuaHitList.py", "        df = self.df.copy()\n        df.column += 1", "        df = self.df\n        df.column += 1", B, "C09.D"),
     ("C01", "reamber/osu/OsuSampleSet.py", '        elif sample_set == "Drum":\n            return OsuSampleSet.DRUM', '        elif sample_set == "Drum":\n            return OsuSampleSet.SOFT', B, "C01.R1"),
+    ("C07", "reamber/o2jam/O2JMap.py", "bpms[bpm_ix + 1].measure <= note_measure", "bpms[bpm_ix].measure <= note_measure", B, "C07.R10"),
+    ("C07", "reamber/o2jam/O2JMap.py", "bpms[bpm_ix + 1].measure <= note_measure", "bpms[bpm_ix + 1].measure < note_measure", T, ""),
+    ("C07", "reamber/o2jam/O2JMap.py", "bpms[bpm_ix + 1].measure <= note_measure", "note_measure >= bpms[bpm_ix + 1].measure", T, ""),
+    ("C07", "reamber/o2jam/O2JMap.py", "while bpm_ix + 1 < len(bpms) and", "while bpm_ix < len(bpms) and", B, "C07.R10"),
+    ("C07", "reamber/o2jam/O2JMap.py", "        for bpm in bpms[bpm_ix + 1 :]:", "        for bpm in bpms[:0]:", B, "C07.R10"),
+    ("C07", "reamber/o2jam/O2JMap.py", "        bpm_ix = -1", "        bpm_ix = 0", B, "C07.R10"),
 ]
